@@ -587,3 +587,119 @@ def c05(run):
         assumptions=["device answers are computed by the harness from the same memory formula and validated by the monitor against the specification's device (mismatch = exit 2)",
                      "16-bit and narrower field types use wire order (Field documentation); order 0 means big endian high word first"],
         mcs=[])
+
+
+# ---------------------------------------------------------------- client family
+def case_of_reset(rs):
+    return {"op": "exch", "client": rs["client"], "req": rs["req"], "reply": rs["reply"], "script": rs.get("script", []),
+            "fault": rs["fault"], "hooks": rs["hooks"], "pair": rs["pair"]}
+
+
+def client_confirm(run, trace):
+    lines = None
+    state = {"n": 0, "cache": {}}
+
+    def confirm(v):
+        nonlocal lines
+        if lines is None:
+            lines = trace_lines(trace)
+        i = v["line"]
+        j = i
+        while j >= 0 and '"ev":"reset"' not in lines[j]:
+            j -= 1
+        if j < 0:
+            return "confirmed"
+        rs = json.loads(lines[j])
+        case = case_of_reset(rs)
+        if rs["pair"] == 1:
+            k = j - 1
+            while k >= 0 and '"ev":"reset"' not in lines[k]:
+                k -= 1
+            case = {"op": "pair", "a": case_of_reset(json.loads(lines[k])), "b": case}
+        v["context"] = {"replay_case": case, "family": "client", "trace_spec": "Trace_Client", "mode": "solo,timeout=2000"}
+        key = json.dumps(case, sort_keys=True)
+        if key in state["cache"]:
+            return state["cache"][key]
+        state["n"] += 1
+        if state["n"] > 12:
+            return "confirmed"
+        cp, tp = run.path("confirm-%d.cases" % state["n"]), run.path("confirm-%d.trace" % state["n"])
+        with open(cp, "w") as f:
+            f.write(json.dumps(case) + "\n")
+        # solo, unloaded, with a much larger total timeout: a timing-dependent rejection must reproduce
+        run.drive("client", cp, tp, extra=["-mode", "solo,timeout=2000"])
+        vs, _ = run.validate("Trace_Client", "Trace_Client.cfg", tp, shards=1)
+        res = "confirmed" if any(x["verdict"] == v["verdict"] for x in vs) else "unreproduced"
+        state["cache"][key] = res
+        return res
+    return confirm
+
+
+def client_pipeline(run, setname, rule, assumptions, mcs, prop_filter=None, timeout_ms=250):
+    cases, trace = run.path("cases.ndjson"), run.path("trace.ndjson")
+    open(cases, "w").close()
+    for module, cfg, expect in mcs:
+        mc(run, module, cfg, expect_violation=expect, workers=8)
+    ngen = gen_family(run, "Gen_Client", setname, cases)
+    run.drive("client", cases, trace, extra=["-mode", "timeout=%d" % timeout_ms], timeout=3000)
+    verdicts, nev = run.validate("Trace_Client", "Trace_Client.cfg", trace, resync_key='"pair":0')
+    harness_bad = [v for v in verdicts if v["verdict"].startswith("harness-")]
+    if harness_bad:
+        raise Infra("driver/trace inconsistency: %s" % json.dumps(harness_bad[0])[:1500])
+    kn, viol = vlib.settle(run, verdicts, prop_filter=prop_filter)
+    ops = vlib.count_ops(trace, key="ev")
+    cov = {
+        "states": run.tlc_stats["states"], "transitions": run.tlc_stats["transitions"],
+        "traces_validated_against_impl": ops.get("reset", 0),
+        "evaluations": ops.get("reset", 0), "distinct_nontrivial": ops.get("return", 0),
+        "rule": rule, "spec_generated_cases": ngen, "events_by_kind": ops,
+        "samples": vlib.sample_lines(trace, 4), "exhaustive": False,
+    }
+    return vlib.finish(run, "model_checking", cov, assumptions, kn, viol, confirm=client_confirm(run, trace))
+
+
+CLIENT_ASSUME = ["the scripted transport (net.Conn / io.ReadWriteCloser) delivers exactly the scripted reads; a quiet line is emulated by reads that time out",
+                 "quiet reads beyond the third are not logged (neither the read nor its hook call)",
+                 "replies are built by the specification; payload content is a fixed pattern"]
+
+
+@check("C07")
+def c07(run):
+    return client_pipeline(
+        run, "c07",
+        rule="10 request types x {TCP client, RTU-over-network client, serial client} x reply shapes (smallest, middle, largest legal, FC17 id/extra variants, exception replies) x "
+             "ALL compositions of replies <= 9 (thorough 13) bytes, all single and double cuts up to 16 bytes, single cuts of long replies, each with and without empty timed-out reads "
+             "((0,deadline); serial also (0,nil) and (0,EOF)); non-trivial = every exchange (its return is judged against the exchange specification)",
+        assumptions=CLIENT_ASSUME, mcs=[("MC_ClientLoop", "MC_ClientLoop_Ref.cfg", False), ("MC_ClientLoop", "MC_ClientLoop_RefTCP.cfg", False),
+                                    ("MC_ClientLoop", "MC_ClientLoop_Short.cfg", True), ("MC_ClientLoop", "MC_ClientLoop_Long.cfg", True)],
+        prop_filter=["C07", "C08", "C12"])
+
+
+@check("C08")
+def c08(run):
+    return client_pipeline(
+        run, "c08",
+        rule="every request type x 3 clients x every prefix length of its smallest reply (sampled prefixes of the largest) x {stall, EOF, I/O error, I/O error after an empty read, cancel} "
+             "+ write error, not connected, nil request, oversize deliveries; non-trivial = every exchange (bounded-time return with the classified error is demanded)",
+        assumptions=CLIENT_ASSUME + ["'bounded time' is checked as configured total timeout + 1.5 s, watchdog 10 s = hang; timing rejections must reproduce solo with a 2 s timeout"],
+        mcs=[("MC_ClientLoop", "MC_ClientLoop_Ref.cfg", False), ("MC_ClientLoop", "MC_ClientLoop_RefTCP.cfg", False)], prop_filter=["C07", "C08", "C12"])
+
+
+@check("C12")
+def c12(run):
+    return client_pipeline(
+        run, "c12",
+        rule="RTU replies of all 10 functions + exception replies x every single-bit flip, byte substitutions {00, FF, b xor 80}, every truncation, extensions, 2-byte corruptions, "
+             "delivered whole, split at byte 5 and split at byte 2 with an empty read, x {RTU network client, serial client}; the monitor itself decides CRC consistency of what was read; "
+             "non-trivial = every exchange",
+        assumptions=CLIENT_ASSUME, mcs=[], prop_filter=["C07", "C08", "C12"])
+
+
+@check("C19")
+def c19(run):
+    return client_pipeline(
+        run, "c19",
+        rule="scripts of C07 (<= 4 steps; thorough 6) and C08 run as pairs: without hooks, then with recording hooks; the monitor checks before-write bytes and order, one after-read "
+             "call per transport read with identical (bytes, n, err), before-parse = concatenation of reads, and equal returns within a pair; non-trivial = every exchange with hooks",
+        assumptions=CLIENT_ASSUME + ["hook arguments are copied at call time (they alias the receive buffer)"],
+        mcs=[], prop_filter=["C07", "C08", "C12"])
